@@ -465,6 +465,28 @@ namespace probe {
          throw Malformed{};
       }
 
+      // A request the Lexicon has to REFUSE in the middle of a look-up, caught by the client, who goes on: a product / sum over the
+      // element types of an expression list one of whose elements has no type -- reading that element's type raises inside the
+      // comparison with the first key met (made only when the table's root has elements, so that this is certain).  Whatever the
+      // Lexicon had set aside for the request is the Lexicon's to return; the accounting at `destroy` says whether it did.
+      void refused_request(bool product)
+      {
+         auto& l = *lex;
+         auto& tf = static_cast<ipr::impl::type_factory&>(l);
+         const bool root_has_elements = product ? (tf.products.root != nullptr and tf.products.root->data.operand().size() > 0)
+                                                : (tf.sums.root != nullptr and tf.sums.root->data.operand().size() > 0);
+         if (not root_has_elements or ++refusals % 3 != 0) return;
+         Track t;
+         auto* xl = l.make_expr_list();
+         xl->push_back(l.make_phantom());
+         try {
+            if (product) (void) l.get_product(xl->type().operand());
+            else (void) l.get_sum(xl->type().operand());
+         }
+         catch (const std::logic_error&) { }
+      }
+      long refusals = 0;
+
       // live use of what a unit owns: the global namespace, its name (an Identifier of THIS Lexicon), its type and region are read
       template<class U>
       void touch_unit(const U& u)
@@ -645,6 +667,7 @@ namespace probe {
                else out << " +" << (live_blocks - before);
             }
             out << '\n';
+            if (op == "prod" or op == "sum") refused_request(op == "prod");
          }
          catch (const Malformed&) { out << res << " !undef\n"; }
          catch (const std::logic_error& e) { out << res << " !L " << e.what() << '\n'; }
